@@ -103,6 +103,13 @@ def run(ctx):
     scs = [add_infos(s, rnd) for s in _scn.standard_pool(ctx, ctx.scale(50, 800), ctx.scale(50, 800), ctx.scale(3, 30))]
     # no-history cases
     scs.append({"profile": "nohist", "root": "root", "tree": {"a.txt": "a", "s/b.txt": "b"}, "ops": [{"op": "info", "at": ""}, {"op": "infosf", "at": "", "file": "a.txt"}, {"op": "create", "at": "s", "h": ["md5"]}, {"op": "info", "at": ""}, {"op": "info", "at": "s"}, {"op": "infosf", "at": "s", "file": "b.txt", "auto_root": True}]})
+    # a history whose manifests are large (hundreds of records: the reader receives them in several blocks), and the
+    # empty folder (a history that records no path at all still has generations)
+    big = {"d%02d/f%03d.bin" % (i % 7, i): "content %d" % i for i in range(ctx.scale(260, 900))}
+    scs.append({"profile": "c19-big", "impl_only": True, "root": "root", "tree": big,
+                "ops": [{"op": "create", "at": "", "h": ["md5", "sha1", "c4"], "now": "2026-03-01 12:00:01"}, {"op": "create", "at": "", "h": ["xxh64"], "now": "2026-03-01 12:00:02"}, {"op": "info", "at": ""}]
+                       + [{"op": "infosf", "at": "", "file": "d%02d/f%03d.bin" % (i % 7, i)} for i in range(0, len(big), max(1, len(big) // 40))]})
+    scs.append({"profile": "c19-empty", "root": "root", "tree": {"e/": None}, "ops": [{"op": "create", "at": "", "h": ["md5"], "now": "2026-03-01 12:00:01"}, {"op": "info", "at": ""}, {"op": "create", "at": "e", "h": ["md5"], "now": "2026-03-01 12:00:02"}, {"op": "info", "at": "e"}, {"op": "info", "at": ""}]})
     return _scn.run_scn(ctx, scs, monitor)
 
 
